@@ -276,6 +276,22 @@ def handleStream (cmd : String) (args : List String) : Option String :=
       let prior : Option Bytes := if ex != 0 then some (asciiBytes "HELLO") else none
       let (after, ok) := openWriteClose f prior b
       pure s!"{if ok then "ok" else "refused"} {match after with | some c => hexOfBytes c | none => "absent"}"
+  | "fw.seq", [flags, prior, ops] => do
+      let fl ← nat? flags
+      let prior : Option Bytes ← if prior = "absent" then pure none else (hex? prior).map some
+      let f : OpenFlags := { canOpenExisting := fl % 2 == 1, canOpenNew := (fl / 2) % 2 == 1,
+                             truncate := (fl / 4) % 2 == 1, append := (fl / 8) % 2 == 1 }
+      match FileW.opened f prior with
+      | none => pure s!"refused {match prior with | some c => showBytes c | none => "absent"}"
+      | some s0 =>
+        let mut s := s0
+        let mut outs : List String := [s!"ok:{s0.pos}"]
+        for tok in (if ops = "-" then [] else ops.splitOn ",") do
+          let op ← wrOpOf tok
+          let (ok, s') := FileW.step s op
+          outs := s!"{if ok then "ok" else "err"}:{s'.pos}" :: outs
+          s := s'
+        pure s!"{joinWith "," outs.reverse} {showBytes s.content}"
   | "copy", [backend, data, startPos, chunk] => do
       let data ← data? data; let p ← nat? startPos; let B ← nat? chunk
       match ← mkReader backend data with
